@@ -1658,7 +1658,20 @@ impl PrettyPrint for Expression<'_> {
                 op: self::UnaryOperator::Negate,
                 expr,
                 ..
-            } => m::operator("-") + with_parens(expr),
+            } => match expr.as_ref() {
+                // `-(x °C)` is read as `(-x) °C`, so the negation of a temperature in its
+                // sugar form cannot be written with the sugar.
+                FunctionCall { name, args, .. }
+                    if args.len() == 1 && (*name == "from_celsius" || *name == "from_fahrenheit") =>
+                {
+                    m::operator("-")
+                        + m::identifier(name.to_compact_string())
+                        + m::operator("(")
+                        + args[0].pretty_print()
+                        + m::operator(")")
+                }
+                _ => m::operator("-") + with_parens(expr),
+            },
             UnaryOperator {
                 op: self::UnaryOperator::Factorial(order),
                 expr,
